@@ -71,7 +71,11 @@ Prop_C01(S) == IsRecv(S) =>
   /\ (IsTransfer(S) => S.post.bal["orb"][D(S)] <= S.pre.bal["orb"][D(S)])   \* the delivered coin went out
 
 (* C02 Every successful transfer conserves value across the whole ledger *)
-Prop_C02(S) == IsTransfer(S) =>
+\* whatever the payload was (also a memo the abstraction cannot interpret): a success acknowledgement
+\* with coins of the delivered denomination still lying on the orbiter account means value that was
+\* neither handed to a route, nor paid as a fee, nor refunded
+NothingStays(S) == IsOrbiterPacket(S) /\ S.ok /\ ~S.panic /\ S.in.base \in Denom => S.post.bal["orb"][S.in.base] = 0
+Prop_C02(S) == NothingStays(S) /\ (IsTransfer(S) =>
   /\ -Delta(S, Esc(S), D(S)) = A(S)
   /\ Forwarded(S) > 0
   /\ (~HasSwap(S) => LeftOrbiter(S, D(S)) = A(S) /\ S.post.bal["orb"][D(S)] = 0)
@@ -82,7 +86,7 @@ Prop_C02(S) == IsTransfer(S) =>
   /\ S.othersSame
   /\ \A x \in Denom : /\ SumOverAccts(S, x) = -Burn(S, x)           \* ledger consistent with supply
                       /\ (Route(S) # "CCTP" \/ x # OutDenom(S) => Burn(S, x) = 0)
-                      /\ Burn(S, x) >= 0
+                      /\ Burn(S, x) >= 0)
 
 (* C03 A failure at any step yields an error acknowledgement, never partial success *)
 Swallowed == {}
@@ -90,6 +94,7 @@ Prop_C03(S) == IsRecv(S) =>
   /\ ~S.panic
   /\ (S.fired \ Swallowed # {} => ~S.ok)
   /\ (~S.ok => S.post = S.pre)
+  /\ NothingStays(S)       \* success only after EVERY fund movement of the transfer has completed
 
 (* C06 Actions run in payload order on the running amount; the final coin is forwarded *)
 HasActions(S) == HasPayload(S) /\ Len(S.in.acts) > 0
@@ -198,6 +203,12 @@ Prop_C05(S) ==
         /\ Len(S.req) = 1
         /\ Mask(S.req[1], S.fullReq) = Mask(ExpectedReq(S.in.fw, PostActionCoin(S)), S.fullReq))
   /\ (IsOrbiterPacket(S) /\ S.in.mk = "PAYLOAD" /\ (Unrouted(S.in) \/ Mismatch(S.in)) => ~S.ok)
+  \* a request that REACHED a bridge (recorded by the wrapper around the real message server) is exactly
+  \* the expected one also when the bridge then refuses it and the transfer fails
+  /\ (IsOrbiterPacket(S) /\ ~S.ok /\ ~S.panic /\ S.in.mk = "PAYLOAD" /\ AmtKind(S.in) = "num" /\ ~HasSwap(S)
+        /\ S.fullReq /\ S.req # <<>> /\ S.fired = {} /\ ParseOK(S.in) /\ PayloadValid(S.in) =>
+        /\ Len(S.req) = 1 /\ ~Unrouted(S.in) /\ ~Mismatch(S.in)
+        /\ S.req[1] = ExpectedReq(S.in.fw, PostActionCoin(S)))
   /\ (IsAdmin(S) /\ S.in.rpc = "ReplaceDepositForBurn" /\ S.in.signer = "AUTH" /\ S.fullReq =>
         S.req = <<ReplaceReq(S.in)>>)
 
